@@ -129,6 +129,25 @@ Proof.
   exact (expand_sound (instantiate cs) fuel path i r H).
 Qed.
 
+(** Substitution is complete: when every calibration binds all the variables of its body
+    ([cals_scoped]) and the source body has no variables, no qubit or parameter variable survives
+    in the expanded body. *)
+Theorem C17_no_variable_survives :
+  forall (cs : cals) (fuel : nat) (p p' : program),
+    cals_scoped cs = true -> (forall i, In i (body p) -> closed_instr i = true) ->
+    expand_program (instantiate cs) fuel p = Ok p' ->
+    forall j, In j (body p') -> closed_instr j = true.
+Proof. exact expand_program_closed. Qed.
+
+(** ... and when formal target names are private to their calibration ([formals_private]) and no
+    measurement calibration is in the known class, no use of a formal target name survives. *)
+Theorem C17_no_formal_target_survives :
+  forall (cs : cals) (fuel : nat) (p p' : program),
+    formals_private cs p = true -> cals_clean cs = true ->
+    expand_program (instantiate cs) fuel p = Ok p' ->
+    forall j, In j (body p') -> mentions_none (formals cs) j = true.
+Proof. exact expand_program_no_formal. Qed.
+
 (** The instance checkers run on the implementation's output decide these clauses. *)
 Theorem C17_checker_sound :
   forall (cs : cals) (p : program) (out : list instr),
